@@ -24,6 +24,7 @@ CONSTANTS
   TaskOps,     \* op budget of a spawned task
   Horizon,     \* largest date
   NFlags, NLocks, NQueues, NChans,
+  NRes, MaxPools, ResInit, MaxLevel,   \* resource supplies 1..NRes with initial level ResInit; pools incl. shares
   CondSel,     \* name of the set of connective expressions the client may await (see CondTable)
   Menu         \* set of client operations enabled in this configuration
 
@@ -77,7 +78,7 @@ StopIter == <<"stopiter">>        \* StopAsyncIteration: an `async for` over a s
 IsInterrupt(x) == x # NoSig /\ x[1] \in {"wk", "cs", "ci", "ct"}
 IsGenExit(x)   == x = GenExit
 \* subclasses of Exception (what a client `except Exception` catches)
-IsException(x) == x # NoSig /\ x[1] \in {"exc", "conc", "tcancelled", "tclosed", "scopeclosed", "streamclosed", "stopiter"}
+IsException(x) == x # NoSig /\ x[1] \in {"exc", "conc", "tcancelled", "tclosed", "scopeclosed", "streamclosed", "stopiter", "unavailable"}
 
 Actv(t, s) == [tgt |-> t, sig |-> s]
 Purge(q, s) == SelectSeq(q, LAMBDA y : y.sig # s)
@@ -115,6 +116,7 @@ Holds(n) ==
     [] n[1] = "nflag" -> ~flag[n[2]]
     [] n[1] = "done"  -> task[n[2]].done
     [] n[1] = "body"  -> sc[n[2]].bodydone
+    [] n[1] = "cmp"   -> obj.pool[n[2]].level >= n[3]
     [] OTHER -> FALSE
 
 WaitersOf(sb, n) == SelectSeq(sb, LAMBDA y : y.n = n)
@@ -140,8 +142,11 @@ Init ==
   /\ flag = [f \in Flags |-> FALSE]
   /\ lock = [l \in AllLocks |-> [owner |-> 0, depth |-> 0]]
   /\ obj = [q |-> [i \in Queues |-> [buf |-> <<>>, closed |-> FALSE]],
-            ch |-> [i \in Chans |-> [closed |-> FALSE, bufs |-> <<>>]]]
-  /\ cnt = [act |-> NRoots, sc |-> 0, exc |-> 0, item |-> 0, cons |-> 0]
+            ch |-> [i \in Chans |-> [closed |-> FALSE, bufs |-> <<>>]],
+            pool |-> [p \in 1..MaxPools |-> [level |-> IF p <= NRes THEN ResInit ELSE 0, parent |-> 0, debit |-> 0,
+                                              owner |-> 0, open |-> FALSE]],
+            lst |-> [p \in 1..MaxPools |-> <<>>]]
+  /\ cnt = [act |-> NRoots, sc |-> 0, exc |-> 0, item |-> 0, cons |-> 0, pool |-> NRes]
   /\ fault = ""
   /\ ev = <<>>
 
@@ -150,7 +155,7 @@ IsTask(a) == a > NRoots
 ----------------------------------------------------------------------------
 \* Loop._run_events / _run_coroutine
 Deliver ==
-  /\ Idle /\ pending # <<>> /\ fault = "" /\ Head(pending).tgt # 0
+  /\ Idle /\ pending # <<>> /\ fault = "" /\ Head(pending).tgt > 0
   /\ LET y == Head(pending) a == y.tgt IN
      /\ pending' = Tail(pending)
      /\ CASE act[a].life = "new" /\ y.sig = NoSig ->
@@ -217,7 +222,7 @@ StatusOf(k) ==
   ELSE IF task[k].res = <<"ok">> THEN "success"
   ELSE IF task[k].res[1] \in {"tcancelled", "tclosed"} THEN "cancelled" ELSE "failed"
 
-User(a) == Top(a).k \in {"user", "held"} \/ (Top(a).k = "scope" /\ Top(a).ph = "body")
+User(a) == Top(a).k \in {"user", "held"} \/ (Top(a).k \in {"scope", "borrow"} /\ Top(a).ph = "body")
 
 ----------------------------------------------------------------------------
 \* WAIT FRAMES: postpone / suspend / sub
@@ -243,11 +248,14 @@ UnwindWait ==
 \* Condition.__await__ loop:  while not self: Notification.__await__
 CondLoop ==
   /\ Running /\ Top(A).k = "cwait"
-  /\ IF Mode = "exc"
-     THEN /\ act' = Drop(act, A) /\ UNCHANGED <<run, subs, pending>>
-     ELSE IF Holds(Top(A).n)
-          THEN /\ act' = Drop(act, A) /\ UNCHANGED <<run, subs, pending>>
-          ELSE /\ DoSubscribe(act, subs, Top(A).n) /\ pending' = pending
+  /\ LET n == Top(A).n
+         \* the comparison instance of a tracked value dies with its await
+         gone == IF n[1] = "cmp" THEN [obj EXCEPT !.lst[n[2]] = Without(@, n)] ELSE obj IN
+     IF Mode = "exc"
+     THEN /\ act' = Drop(act, A) /\ obj' = gone /\ UNCHANGED <<run, subs, pending>>
+     ELSE IF Holds(n)
+          THEN /\ act' = Drop(act, A) /\ obj' = gone /\ UNCHANGED <<run, subs, pending>>
+          ELSE /\ DoSubscribe(act, subs, n) /\ pending' = pending /\ obj' = obj
   /\ ev' = <<>>
   /\ UNCHANGED <<now, future, task, sc, flag, lock, cnt, fault>>
 
@@ -550,6 +558,7 @@ OpenScope(ac, kind, notif, catch) ==
 UserOp ==
   /\ Running /\ Mode = "ret" /\ User(A) /\ act[A].cur.op = "none"
   /\ \/ \* ---- end of the program
+        /\ Top(A).k \in {"user", "held", "scope"}
         /\ IF Top(A).k = "user"
            THEN /\ EndUser(NoSig)
                 /\ UNCHANGED <<pending, future, task, sc, subs, flag, lock>>
@@ -560,7 +569,7 @@ UserOp ==
      \/ /\ act[A].ops > 0
         /\ now' = now
         /\ LET ac == Spend(act) IN
-           \/ /\ In("leave") /\ Top(A).k # "user"
+           \/ /\ In("leave") /\ Top(A).k \in {"held", "scope"}
               /\ LeaveBlock(ac)
               /\ ev' = E(B([op |-> "leave", implicit |-> FALSE, blk |-> BlkOf(Top(A)), id |-> IdOf(Top(A))]))
               /\ UNCHANGED <<task, flag, cnt, fault>>
@@ -916,7 +925,7 @@ TimeWait(ac, c) ==
 
 \* the anonymous activity that triggers an After condition at its date
 DeliverTrigger ==
-  /\ Idle /\ pending # <<>> /\ fault = "" /\ Head(pending).tgt = 0
+  /\ Idle /\ pending # <<>> /\ fault = "" /\ Head(pending).tgt = 0 /\ Head(pending).sig[1] = "trig"
   /\ LET aw == AwakeAll(subs, Tail(pending), Head(pending).sig[2]) IN
      subs' = aw[1] /\ pending' = aw[2]
   /\ ev' = <<>>
@@ -1000,10 +1009,153 @@ CondOp ==
   /\ UNCHANGED <<now, task, flag, lock, obj, fault>>
 
 ----------------------------------------------------------------------------
+\* RESOURCES (usim/_basics/resource.py, tracked.py)
+\* obj.pool[p] = [level, parent, debit]: pools 1..NRes are the supplies, higher ids are the shares
+\* (BorrowedResources) opened by borrow blocks; obj.lst[p] = live comparison instances (`available >= amt`)
+\* listening to pool p's Tracked value, in registration order.
+Cmp(p, amt, a, d) == <<"cmp", p, amt, a, d>>
+CmpHolds(o, n) == o.pool[n[2]].level >= n[3]
+\* Tracked.set: store the value, then every listener whose test is true triggers its waiters
+RECURSIVE FireFrom(_, _, _, _)
+FireFrom(o, ls, sb, pd) ==
+  IF ls = <<>> THEN <<sb, pd>>
+  ELSE LET aw == IF CmpHolds(o, Head(ls)) THEN AwakeAll(sb, pd, Head(ls)) ELSE <<sb, pd>> IN
+       FireFrom(o, Tail(ls), aw[1], aw[2])
+SetLevel(o, p, v) == [o EXCEPT !.pool[p].level = v]
+\* result of `await tracked.set(v)` up to (not including) the postpone: <<obj', subs', pending'>>
+TSet(o, p, v, sb, pd) == LET o1 == SetLevel(o, p, v) f == FireFrom(o1, o1.lst[p], sb, pd) IN <<o1, f[1], f[2]>>
+
+\* anonymous helper activities scheduled by BorrowedResources.__aexit__ on GeneratorExit
+Hlp(p, delta, up) == <<"hlp", p, delta, up>>
+DeliverHelper ==
+  /\ Idle /\ pending # <<>> /\ fault = "" /\ Head(pending).tgt = 0 /\ Head(pending).sig[1] \in {"hlp", "nop"}
+  /\ LET h == Head(pending).sig IN
+     IF h[1] = "hlp"
+     THEN LET p == h[2]  v == IF h[4] THEN obj.pool[p].level + h[3] ELSE obj.pool[p].level - h[3]
+              r == TSet(obj, p, v, subs, Tail(pending)) IN
+          /\ obj' = r[1] /\ subs' = r[2]
+          /\ pending' = Append(r[3], Actv(0, <<"nop">>))          \* its own `await postpone()`
+          /\ fault' = IF v < 0 THEN "negative_level" ELSE fault
+     ELSE /\ pending' = Tail(pending) /\ UNCHANGED <<obj, subs, fault>>
+  /\ ev' = <<>>
+  /\ UNCHANGED <<now, future, act, run, task, sc, flag, lock, cnt>>
+
+\* BorrowedResources.__aenter__ / __aexit__ :  frame borrow(p, sh, amt, ph)
+\*   ph: "wait" (awaiting available >= amt)  "rm" (removed from p, postponing)  "ins" (inserted into share, postponing)
+\*       "body"  "x1" (removed from share, postponing)  "x2" (given back to p, postponing)
+BorrowStep ==
+  /\ Running /\ Top(A).k = "borrow" /\ Top(A).ph # "body"
+  /\ LET fr == Top(A) p == fr.p sh == fr.sh amt == fr.amt IN
+     IF Mode = "exc"
+     THEN \* an exception during acquisition or release skips the remaining transfers (see DESIGN.md: known finding)
+          /\ act' = Drop(act, A)
+          /\ UNCHANGED <<run, obj, subs, pending, fault>>
+          /\ ev' = IF fr.x # NoSig     \* the body had already been left by an exception: the block reports the final one
+                    THEN E([e |-> "u", a |-> A, op |-> "body", blk |-> "res", id |-> p, t |-> now, exc |-> X]) ELSE <<>>
+     ELSE /\ ev' = IF fr.ph = "x2" /\ fr.x # NoSig
+                    THEN E([e |-> "u", a |-> A, op |-> "body", blk |-> "res", id |-> p, t |-> now, exc |-> fr.x]) ELSE <<>>
+          /\ CASE fr.ph = "wait" ->
+                 \* available >= amt now: remove from the supply, postpone
+                 LET r == TSet(obj, p, obj.pool[p].level - amt, subs, pending) IN
+                 /\ obj' = r[1] /\ subs' = r[2]
+                 /\ DoPostpone(SetTop(act, A, [fr EXCEPT !.ph = "rm"]), r[3])
+                 /\ fault' = IF obj.pool[p].level < amt THEN "negative_level" ELSE fault
+            [] fr.ph = "rm" ->
+                 LET r == TSet(obj, sh, obj.pool[sh].level + amt, subs, pending) IN
+                 /\ obj' = r[1] /\ subs' = r[2]
+                 /\ DoPostpone(SetTop(act, A, [fr EXCEPT !.ph = "ins"]), r[3])
+                 /\ fault' = fault
+            [] fr.ph = "ins" ->
+                 /\ act' = SetTop(act, A, [fr EXCEPT !.ph = "body"])
+                 /\ UNCHANGED <<run, obj, subs, pending, fault>>
+            [] fr.ph = "x1" ->
+                 LET r == TSet(obj, p, obj.pool[p].level + amt, subs, pending) IN
+                 /\ obj' = r[1] /\ subs' = r[2]
+                 /\ DoPostpone(SetTop(act, A, [fr EXCEPT !.ph = "x2"]), r[3])
+                 /\ fault' = fault
+            [] fr.ph = "x2" ->
+                 \* block left; an exception that was passing through continues
+                 /\ act' = Drop(act, A)
+                 /\ IF fr.x = NoSig THEN UNCHANGED run ELSE SetRun("exc", fr.x)
+                 /\ UNCHANGED <<obj, subs, pending, fault>>
+  /\ UNCHANGED <<now, future, task, sc, flag, lock, cnt>>
+
+\* leave the body of a borrow block (normally: x = NoSig, or with exception x passing through)
+StartGiveBack(ac, fr, x) ==
+  LET r == TSet(obj, fr.sh, obj.pool[fr.sh].level - fr.amt, subs, pending) IN
+  /\ obj' = r[1] /\ subs' = r[2]
+  /\ DoPostpone(SetTop(ac, A, [fr EXCEPT !.ph = "x1", !.x = x]), r[3])
+
+BorrowBodyExc ==
+  /\ Running /\ Mode = "exc" /\ Top(A).k = "borrow" /\ Top(A).ph = "body" /\ act[A].cur.op = "none"
+  /\ LET fr == Top(A) IN
+     IF IsGenExit(X)
+     THEN \* killed forcefully: two new activities give the resources back later in this time step
+          /\ act' = Drop(act, A)
+          /\ pending' = pending \o <<Actv(0, Hlp(fr.sh, fr.amt, FALSE)), Actv(0, Hlp(fr.p, fr.amt, TRUE))>>
+          /\ UNCHANGED <<run, obj, subs>>
+     ELSE StartGiveBack(act, fr, X)
+  /\ ev' = IF IsGenExit(X) THEN E([e |-> "u", a |-> A, op |-> "body", blk |-> "res", id |-> Top(A).p, t |-> now, exc |-> X])
+            ELSE <<>>
+  /\ UNCHANGED <<now, future, task, sc, flag, lock, cnt, fault>>
+
+ResOp ==
+  /\ Running /\ Mode = "ret" /\ User(A) /\ act[A].cur.op = "none"
+  /\ LET ac == Spend(act) IN
+     \/ \* end of the program inside a borrow block: leave it
+        /\ Top(A).k = "borrow"
+        /\ StartGiveBack([act EXCEPT ![A].ops = 0, ![A].cur = [op |-> "leave", blk |-> "res", id |-> Top(A).p]], Top(A), NoSig)
+        /\ ev' = E(B([op |-> "leave", implicit |-> TRUE, blk |-> "res", id |-> Top(A).p]))
+        /\ UNCHANGED <<cnt, run>>
+     \/ /\ act[A].ops > 0 /\ In("borrow")
+        /\ \E p \in 1..cnt.pool : \E amt \in 0..2 : \E claim \in BOOLEAN :
+             /\ (claim => In("claim"))
+             /\ (p > NRes => (In("nested") /\ amt <= obj.pool[p].debit
+                              /\ \E i \in 1..Len(Stack(A)) : Stack(A)[i].k = "borrow" /\ Stack(A)[i].sh = p /\ Stack(A)[i].ph = "body"))
+             /\ cnt.pool < MaxPools
+             /\ LET sh == cnt.pool + 1
+                    opn == IF claim THEN "claim" ELSE "borrow"
+                    o1 == [obj EXCEPT !.pool[sh] = [level |-> 0, parent |-> p, debit |-> amt, owner |-> A, open |-> TRUE]]
+                    ac1 == Push([ac EXCEPT ![A].cur = [op |-> opn, p |-> p]], A,
+                                [k |-> "borrow", p |-> p, sh |-> sh, amt |-> amt, ph |-> "wait", x |-> NoSig]) IN
+                /\ cnt' = [cnt EXCEPT !.pool = sh]
+                /\ ev' = E(B([op |-> opn, p |-> p, amt |-> amt, sh |-> sh]))
+                /\ IF obj.pool[p].level >= amt
+                   THEN \* resume immediately (BorrowStep "wait" does the removal)
+                        /\ obj' = o1 /\ act' = ac1 /\ UNCHANGED <<run, subs, pending>>
+                   ELSE IF claim
+                   THEN /\ obj' = o1 /\ act' = ac1 /\ SetRun("exc", <<"unavailable", p>>) /\ UNCHANGED <<subs, pending>>
+                   ELSE \* await (available >= amt): a new comparison instance listens to p
+                        LET n == Cmp(p, amt, A, Len(ac1[A].stack) + 1) IN
+                        /\ obj' = [o1 EXCEPT !.lst[p] = Append(@, n)]
+                        /\ DoSubscribe(Push(ac1, A, [k |-> "cwait", n |-> n]), subs, n)
+                        /\ pending' = pending
+     \/ /\ act[A].ops > 0 /\ In("leave") /\ Top(A).k = "borrow" /\ Top(A).ph = "body"
+        /\ StartGiveBack([ac EXCEPT ![A].cur = [op |-> "leave", blk |-> "res", id |-> Top(A).p]], Top(A), NoSig)
+        /\ ev' = E(B([op |-> "leave", implicit |-> FALSE, blk |-> "res", id |-> Top(A).p]))
+        /\ UNCHANGED <<cnt, run>>
+     \/ /\ act[A].ops > 0 /\ In("rchange")
+        /\ \E p \in 1..NRes : \E kind \in {"inc", "dec", "rset"} : \E amt \in 0..2 :
+             /\ (kind = "dec" => amt <= obj.pool[p].level)
+             /\ LET v == IF kind = "inc" THEN obj.pool[p].level + amt ELSE IF kind = "dec" THEN obj.pool[p].level - amt ELSE amt
+                    r == TSet(obj, p, v, subs, pending) IN
+                /\ v <= MaxLevel
+                /\ obj' = r[1] /\ subs' = r[2]
+                /\ DoPostpone([ac EXCEPT ![A].cur = [op |-> kind, p |-> p]], r[3])
+                /\ ev' = E(B([op |-> kind, p |-> p, amt |-> amt]))
+        /\ UNCHANGED <<cnt>>
+     \/ /\ act[A].ops > 0 /\ In("levels")
+        /\ \E p \in 1..NRes :
+             /\ ev' = E([e |-> "p", a |-> A, t |-> now, op |-> "levels", p |-> p, v |-> obj.pool[p].level])
+             /\ act' = ac
+        /\ UNCHANGED <<obj, subs, pending, run, cnt>>
+  /\ UNCHANGED <<now, future, task, sc, flag, lock, fault>>
+
+----------------------------------------------------------------------------
 Keep(Act) == Act /\ UNCHANGED obj        \* the steps above do not touch stream state
 Next ==
   \/ Keep(Deliver) \/ Keep(Advance)
-  \/ Keep(WakeOwn) \/ Keep(UnwindWait) \/ Keep(CondLoop) \/ Keep(TaskAwaited)
+  \/ Keep(WakeOwn) \/ Keep(UnwindWait) \/ CondLoop \/ Keep(TaskAwaited)
   \/ Keep(OpDone) \/ Keep(OpRaised)
   \/ Keep(LockEntered) \/ Keep(HeldExc)
   \/ Keep(RunnerStart) \/ Keep(RunnerDelayed) \/ Keep(RunnerEnd) \/ Keep(UserExc)
@@ -1011,6 +1163,7 @@ Next ==
   \/ Keep(UserOp)
   \/ StreamOp \/ QGetStep \/ ChanStep
   \/ CondOp \/ ConnStep \/ DeliverTrigger \/ HibExc
+  \/ ResOp \/ BorrowStep \/ BorrowBodyExc \/ DeliverHelper
 
 Spec == Init /\ [][Next]_vars
 =============================================================================
